@@ -2,6 +2,9 @@
 //! Monitors compare typeshare's output with this model, never with typeshare's own IR.
 use crate::rng::Rng;
 
+/// see `Ty::render`
+pub static EXOTIC_PATHS: std::sync::atomic::AtomicBool = std::sync::atomic::AtomicBool::new(false);
+
 #[derive(Clone, Debug, PartialEq)]
 pub enum Ty {
     /// bool char String &str i8.. I54 U53 f32 f64 (and the unsupported u64 i64 usize isize for C08)
@@ -79,6 +82,18 @@ impl Ty {
     pub fn render(&self, rng: &mut Rng, vary: bool) -> String {
         let q = |rng: &mut Rng, path: &str, name: &str| -> String {
             if vary && rng.chance(1, 4) {
+                // with EXOTIC_PATHS (set by the one check that does not compile its sources): every spelling a Rust file may
+                // use for a std type - absolute, through `alloc`, or relative to an imported module (`use std::collections;`)
+                if EXOTIC_PATHS.load(std::sync::atomic::Ordering::Relaxed) && path.starts_with("std::") {
+                    let module = &path["std::".len()..];
+                    let in_alloc = matches!(module, "vec" | "string" | "boxed" | "borrow" | "rc") || (module == "sync" && name == "Arc");
+                    return match rng.below(if in_alloc { 4 } else { 3 }) {
+                        0 => format!("{path}::{name}"),
+                        1 => format!("::{path}::{name}"),
+                        2 => format!("{module}::{name}"),
+                        _ => format!("alloc::{module}::{name}"),
+                    };
+                }
                 format!("{path}::{name}")
             } else {
                 name.to_string()
